@@ -48,6 +48,16 @@ PROPS = {
                      "the order in which the files of a Package are walked is Go map order in dst and go/ast alike and is not part of the statement",
                      "correspondence with go/ast's traversal of the source ast is proved at table level (same fields in the same order) and checked on the implementation by the oracle"],
     ),
+    "C14": dict(
+        unknown_keys=["dstutil/rewrite.go", "astutil"],
+        trusted_base=[KERNEL, TRANSLATOR + " (dstutil/rewrite.go and x/tools@v0.1.12 astutil/rewrite.go -> Gen/ApplyTbl.v: child table, Cursor method IR through a fixed statement dictionary, function-by-function text comparison, pinned text of Apply / apply frame / applyList)",
+                      HARNESS + " running dstutil.Apply and astutil.Apply on corresponding trees with one script",
+                      "hand model Model/Iter.v of applyList and of the reflect slice operations (reflect.Copy as an overlap-safe block move), tied to the source by the pinned text and to behaviour by the differential oracle"],
+        assumptions=["the reference is astutil of golang.org/x/tools v0.1.12 (the version dst's go.mod pins); its pre-1.18 typeparams shim skips a nil TypeParams list where dstutil (and current astutil) call the callbacks with a nil node -- those callbacks are not compared",
+                     "pre=false skipping children and post, and post=false aborting while Apply still returns the tree, are facts about the frame text, which is checked to be astutil's and exercised by the oracle; they are not separate Coq theorems",
+                     "after Replace/Delete the cursor's Node() keeps returning the old node (astutil semantics); the Parent/Name/Index invariant is checked for nodes still in the tree",
+                     "the recorded finding delete-then-insert-same-visit is excluded from C14_each_original_visited_once by delete_last"],
+    ),
     "C19": dict(
         unknown_keys=["decorations.go"],
         trusted_base=[KERNEL, TRANSLATOR + " (decorations.go -> Gen/DecsIR.v)", HARNESS,
